@@ -6,7 +6,7 @@ import time
 
 import z3
 
-from exec import (VInt, VBool, VSym, VUnit, VStruct, VEnum, VRef, VVec, VOpaque, State)
+from exec import (VInt, VBool, VSym, VUnit, VStruct, VEnum, VRef, VVec, VMap, VOpaque, State)
 from world import SystemWorld, find_fn, U64
 from obl_index import Obligation, model_values
 from iomodel import BlobDisk, IoModel
@@ -103,6 +103,8 @@ def classify(cex):
         return "read_vs_unlink"
     if v == "stale-intent":
         return "stale-intent"
+    if v in ("inflight-blob-deleted", "inflight-intent-lost"):
+        return "inflight-unprotected"
     if v in ("dangling", "not-exact"):
         puts = [i for i, k in enumerate(kinds) if k == "put"]
         steps = cex.get("steps", [])
@@ -146,7 +148,45 @@ def fault_rename_into_cas(op, info):
     return op == "rename" and (info.get("dst") or ("",))[0] == "cas"
 
 
-def explore(ex, kinds, U=2, HU=2, inv=None, max_states=200000, no_orphans=False, faults=0):
+def add_inflight(ex, sw, st, infos, pinned=False):
+    """a THIRD actor, stopped inside its commit window: a put of (key ka, content ha) that has registered its intent - through
+    the REAL `Index::register_intent`, so whatever container the current source keeps its intents in is built by the code
+    itself - and renamed its blob into cas/, but has not applied to the index yet.  Its key differs from the keys of the
+    explored put threads (two commits on ONE key are the known finding D4).  -> [state]"""
+    from structs import mk
+    n = len(infos)
+    ka = sw.sym_key(st, f"t{n}_key")
+    ha = sw.sym_hash(st, f"t{n}_hash")
+    sz = ex.new_int(st, "u64", f"t{n}_size")
+    w = sw.iw
+    for i in range(w.U):
+        st.pc.append(z3.Implies(z3.And(w.pk[i], w.hk[i] == ha), w.sk[i] == sz.t))
+    for inf in infos:
+        if inf["kind"] == "put":
+            st.pc.append(inf["key"] != ka)
+            st.pc.append(z3.Implies(inf["hash"] == ha, inf["size"] == sz.t))
+        if pinned and "key" in inf:
+            # quick tier: the explored threads work on the first key of the universe, the in-flight commit on the last
+            st.pc.append(inf["key"] == w.keys[0])
+    if pinned:
+        st.pc.append(ka == w.keys[-1])
+    st.pc.append(w.total + 4 * sz.t <= U64)
+    meta = mk(ex, st, "IntentMeta", blob_hash=VSym(ha, "H"), blob_size=sz)
+    saved, st.faults_left = st.faults_left, 0
+    ntrace = len(st.trace)
+    outs = []
+    for g in E._run_ok(ex, st, find_fn(ex, "::register_intent", "index::"), [sw.index_ref, VSym(ka, "K"), meta], "register_intent (in-flight commit)"):
+        del g.trace[ntrace:]
+        g.faults_left = saved
+        g.meta["inflight_guard"] = g.retval     # the guard stays alive (its commit has not run)
+        g.retval = None
+        g.meta["blobs"] = z3.Store(g.meta["blobs"], ha, z3.BoolVal(True))   # its rename into cas/ has happened
+        outs.append(g)
+    sw.inflight = dict(kind="put", key=ka, hash=ha, size=sz.t, inflight=True)
+    return outs
+
+
+def explore(ex, kinds, U=2, HU=2, inv=None, max_states=200000, no_orphans=False, faults=0, inflight=False):
     """run the given operations as threads from an arbitrary quiet store; -> (sw, infos, finals)"""
     from obl_replay import scoped_models
     with scoped_models(ex):
@@ -170,10 +210,13 @@ def explore(ex, kinds, U=2, HU=2, inv=None, max_states=200000, no_orphans=False,
                     for b in range(a + 1, len(puts)):
                         st1.pc.append(z3.Implies(puts[a]["hash"] == puts[b]["hash"], puts[a]["size"] == puts[b]["size"]))
                 ex.on_schedule = inv(sw, infos) if inv else None
-                for s0 in ex.start_threads(st1, progs):
-                    finals += ex.run(s0)
-                    if len(finals) > max_states:
-                        break
+                sw.inflight = None
+                starts = add_inflight(ex, sw, st1, infos, pinned=(inflight == "pinned")) if inflight else [st1]
+                for st2 in starts:
+                    for s0 in ex.start_threads(st2, progs):
+                        finals += ex.run(s0)
+                        if len(finals) > max_states:
+                            break
         finally:
             ex.on_schedule = None
             sw.io.disk = None
@@ -188,6 +231,14 @@ def inv_no_dangling(ex):
         w = sw.iw
 
         def hook(ex2, st):
+            fl = getattr(sw, "inflight", None)
+            if fl is not None:
+                gone = z3.Not(z3.Select(st.meta["blobs"], fl["hash"]))
+                if ex2.feasible(st.pc, gone):
+                    st.pc.append(gone)
+                    st.meta["inflight_violation"] = True
+                    return ("the blob of an in-flight commit (intent registered, blob renamed into cas/, index apply still to come) "
+                            "was deleted: the commit is about to reference a missing blob")
             for t, d in st.parked.items():
                 if any(l == "state" and m == "write" for (l, m) in d["locks"]):
                     return None
@@ -217,21 +268,45 @@ def summarize(st):
     return out
 
 
-def ob_schedules(ex, kinds, U=2, HU=2, tags=("C04",), check_reads=True, final_exact=False, faults=0):
+def intents_map(st, sw):
+    """the per-key intents map (a VMap keyed by K) inside whatever `pending_intents` protects in the current source"""
+    def find(v, depth=0):
+        if isinstance(v, VMap) and v.ksort == "K":
+            return v
+        if isinstance(v, VStruct) and depth < 3:
+            for f in v.fields:
+                r = find(f, depth + 1)
+                if r is not None:
+                    return r
+        return None
+    v = st.load(sw.intents_ref)
+    m = find(v)
+    if m is None:
+        from exec import Unsupported
+        raise Unsupported(f"no per-key map inside pending_intents ({v})")
+    return m
+
+
+def ob_schedules(ex, kinds, U=2, HU=2, tags=("C04",), check_reads=True, final_exact=False, faults=0, inflight=False):
     t0 = time.time()
     q0 = ex.queries
-    sw, infos, finals = explore(ex, kinds, U, HU, inv=inv_no_dangling(ex), no_orphans=final_exact, faults=faults)
+    sw, infos, finals = explore(ex, kinds, U, HU, inv=inv_no_dangling(ex), no_orphans=final_exact, faults=faults, inflight=inflight)
+    fl = getattr(sw, "inflight", None) if inflight else None
     what_ = {"C15": "some thread can always proceed until all are done (no deadlock), no panic",
              "C07": "no dangling reference at any instant; after an error-free schedule cas/ holds exactly the referenced contents",
              "C05": "a get whose key was present at its lookup succeeds; no dangling reference at any instant"}.get(
                  tags[0] if tags else "", "no dangling reference at any instant; reads of present keys succeed")
     if faults:
         what_ += "; one failed rename into cas/ anywhere: still no dangling reference, and when all calls have returned no intent is left behind"
-    name = "every interleaving of " + " || ".join(kinds) + f" (U={U}, HU={HU}{', 1 fault' if faults else ''}): " + what_
+    if inflight:
+        what_ += ("; a THIRD commit is stopped inside its window (intent registered by the real register_intent, blob renamed into cas/, "
+                  "apply still to come): its blob is never deleted and its intent is still there when the others are done")
+    name = ("every interleaving of " + " || ".join(kinds) + (" with a third put in flight" + (" (thread keys = first key, in-flight key = last key)" if inflight == "pinned" else "") if inflight else "")
+            + f" (U={U}, HU={HU}{', 1 fault' if faults else ''}): " + what_)
     terms = dict(keys=sw.iw.keys, hashes=sw.iw.hashes, pk=sw.iw.pk, hk=sw.iw.hk, orphans=sw.orphan_bits)
-    for i, inf in enumerate(infos):
+    for i, inf in enumerate(list(infos) + ([fl] if fl else [])):
         for k2, v in inf.items():
-            if k2 != "kind":
+            if k2 not in ("kind", "inflight"):
                 terms[f"t{i}_{k2}"] = v
     for f in finals:
         if f.status in ("unsupported", "cut"):
@@ -240,7 +315,7 @@ def ob_schedules(ex, kinds, U=2, HU=2, tags=("C04",), check_reads=True, final_ex
     for f in finals:
         what = None
         if f.status == "violation":
-            what = ("dangling", f.note)
+            what = ("inflight-blob-deleted" if f.meta.get("inflight_violation") else "dangling", f.note)
         elif f.status == "deadlock":
             what = ("deadlock", f.note)
         elif f.status == "panic":
@@ -252,9 +327,16 @@ def ob_schedules(ex, kinds, U=2, HU=2, tags=("C04",), check_reads=True, final_ex
         if what is None and f.status == "returned":
             # quiescence: every call has returned (successfully or not) -> pending_intents is empty again; an intent left
             # behind protects a blob for ever (never reclaimed), one removed too early exposes a concurrent commit
-            im = f.load(sw.intents_ref)
-            left = z3.Or([z3.Select(im.present, k) for k in sw.iw.keys])
-            if ex.feasible(f.pc, left):
+            im = intents_map(f, sw)
+            if fl is None:
+                left = z3.Or([z3.Select(im.present, k) for k in sw.iw.keys])
+            else:
+                left = z3.Or([z3.And(z3.Select(im.present, k), k != fl["key"]) for k in sw.iw.keys])
+                lost = z3.Or(z3.Not(z3.Select(im.present, fl["key"])), z3.Select(im.cols["v"], fl["key"]) != fl["hash"])
+                if ex.feasible(f.pc, lost):
+                    f.pc.append(lost)
+                    what = ("inflight-intent-lost", "the other operations have returned and the intent of the commit still in flight is gone or names another content")
+            if what is None and ex.feasible(f.pc, left):
                 f.pc.append(left)
                 what = ("stale-intent", "all operations have returned but pending_intents still holds an intent")
         if what is None and final_exact and f.status == "returned":
@@ -269,6 +351,13 @@ def ob_schedules(ex, kinds, U=2, HU=2, tags=("C04",), check_reads=True, final_ex
                     what = ("not-exact", "after an error-free schedule the files under cas/ are not exactly the referenced contents")
         if what:
             pre = dict(kinds=list(kinds), violation=what[0], detail=what[1], schedule=f.meta.get("schedule"), steps=summarize(f))
+            if fl is not None:
+                # the in-flight commit is one more real thread of the native replay: it runs up to its window first, is held
+                # at whatever it does next, and resumes when the others are done
+                n = len(kinds)
+                pre["kinds"] = list(kinds) + ["put"]
+                pre["steps"] = [f"T{n}:acq:pending_intents", f"T{n}:rename:ok:staging"] + pre["steps"] + [f"T{n}:resume"]
+                pre["inflight"] = n
             # the role needs the concrete keys: evaluate a model only for the first path of each candidate role
             r, m = ex.model_of(f.pc)
             cex = model_values(m, terms) if m else {}
